@@ -1,4 +1,4 @@
 SPECIFICATION Spec
-CONSTANTS NG = 2 Keys = {1} Rounds = 2 Modes = {"w"} WRels = {"unlock", "deleteunlock"} RRels = {"runlock"} PlainDelete = FALSE Repaired = FALSE
+CONSTANTS NG = 2 Keys = {1} Rounds = 2 Modes = {"w"} WRels = {"unlock", "deleteunlock"} RRels = {"runlock"} PlainDelete = FALSE Repaired = FALSE NonAtomicDeleteUnlock = FALSE
 INVARIANTS Contract
 CHECK_DEADLOCK FALSE
